@@ -92,6 +92,7 @@ package fiber
 // configDependentPaths: the only writer of path/detectionPath/treePathHash. The atcall clauses are the
 // intermediate facts (what is decoded / folded is a copy of THIS request's path, in the context's own buffer).
 //@ func (*DefaultCtx).configDependentPaths
+//@   props C05 C03 C02 C07
 //@   requires wf: ctxWF(c)
 //@   modifies c.path, c.detectionPath, c.treePathHash, elems(c.path), elems(c.detectionPath)
 //@   atcall @fasthttp.AppendUnquotedArg: decodes-this-path: str(src) == c.pathOriginal
@@ -106,7 +107,7 @@ package fiber
 //@   ensures hash-from-detection: c.treePathHash == hash3(str(c.detectionPath))
 // what the matcher relies on when it cuts parameter values out of path at offsets computed on detectionPath
 // (assumed as paths-wf by (*App).next, required by getMatch): never longer, byte-wise equal up to ASCII case
-//@   ensures [C05 C07 C02] detection-folds-path: len(c.detectionPath) <= len(c.path) && forall(k, 0, len(c.detectionPath), str(c.detectionPath)[k] == str(c.path)[k] || str(c.detectionPath)[k] == lowerb(str(c.path)[k]))
+//@   ensures detection-folds-path: len(c.detectionPath) <= len(c.path) && forall(k, 0, len(c.detectionPath), str(c.detectionPath)[k] == str(c.path)[k] || str(c.detectionPath)[k] == lowerb(str(c.path)[k]))
 //@   ensures buffers-allocated: (arr(c.path) == 0 || allocated(arr(c.path))) && (arr(c.detectionPath) == 0 || allocated(arr(c.detectionPath)))
 //@   ensures wf: arr(c.path) == 0 || arr(c.path) != arr(c.detectionPath)
 
